@@ -33,15 +33,15 @@ def batches(fam, weight_cap=40, max_cases=6, truncations=True):
     return out
 
 
-def batch_obligations(prefix, fam, harness, defines, variant="dbg", truncations=True, weight_cap=40, max_cases=6, limit=2048,
+def batch_obligations(prefix, fam, harness, defines, variant="dbg", truncations=True, weight_cap=40, max_cases=6, limit=2048, unwindset=None, paths_first=False,
                       timeout=600, leak=True, funcs=None, desc="", extra_unwind=4, flags=None, mem_gb=8, ptrcheck=True):
     obls = []
     for bi, b in enumerate(batches(fam, weight_cap, max_cases, truncations)):
         maxn = max(len(s["bytes"]) for s in b)
         src = sk.c_cases(b, limit, truncations)
         obls.append(Obl("%s_batch%03d_%s" % (prefix, bi, variant), harness, defines, variant=variant, unwind=maxn + extra_unwind + int(defines.get("P_SUFFIX", 0) or 0),
-                        unwindset=tight_unwindset(b) if ptrcheck else ["_cbor_highest_bit.0:66"],
-                        gen_src={"cases.h": src}, timeout=timeout, leak=leak, funcs=funcs or [], mem_gb=mem_gb, flags=flags or [], ptrcheck=ptrcheck,
+                        unwindset=unwindset if unwindset is not None else (tight_unwindset(b) if ptrcheck else ["_cbor_highest_bit.0:66"]),
+                        paths_first=paths_first, gen_src={"cases.h": src}, timeout=timeout, leak=leak, funcs=funcs or [], mem_gb=mem_gb, flags=flags or [], ptrcheck=ptrcheck,
                         desc=desc, bounds="%d skeletons, <= %d bytes each%s; all data bytes symbolic" % (len(b), maxn, ", every truncation offset" if truncations else ""),
                         sample={"skeletons": [{"heads": s["name"], "bytes": " ".join("??" if x < 0 else "%02x" % x for x in s["bytes"]), "expected": repr(s["outcome"])} for s in b[:3]]}))
     return obls
